@@ -117,6 +117,7 @@ type orderEdge struct {
 
 type locksetEngine struct {
 	w       *World
+	conduit map[*ssa.Function]bool
 	guards  map[string]*guardSpec // owner -> spec (several specs per owner allowed via key owner+"#"+lock)
 	byField map[string]*guardSpec // "owner.field" -> spec
 	// functions whose boolean result is assumed false when it steers a branch (privilege idiom)
@@ -150,7 +151,7 @@ type locksetEngine struct {
 	selfHeld    []selfEdge
 	privSkipped []selfEdge // call sites under the privilege whose callee would take a held state lock
 	priv        *privAnchors
-	stateLocks map[string]bool
+	stateLocks  map[string]bool
 }
 
 type selfEdge struct {
@@ -494,7 +495,32 @@ func (e *locksetEngine) inside(fn *ssa.Function, lock string) bool {
 	if !strings.Contains(owner, ".") {
 		return e.w.RelPkg(o) == owner
 	}
+	// a conduit: a package-level function of the owner's package that calls a function it was handed (a generic
+	// helper such as Expire(ctx, ..., rem func(...))): what the callback needs, the helper's caller has to hold
+	if o.Signature.Recv() == nil && e.w.RelPkg(o) == owner[:strings.Index(owner, ".")] && e.callsParam(o) {
+		return true
+	}
 	return false
+}
+
+// callsParam: fn calls one of its own function-typed parameters.
+func (e *locksetEngine) callsParam(fn *ssa.Function) bool {
+	if e.conduit == nil {
+		e.conduit = map[*ssa.Function]bool{}
+	}
+	if v, ok := e.conduit[fn]; ok {
+		return v
+	}
+	res := false
+	allInstrs(fn, func(in ssa.Instruction) {
+		if c := callOf(in); c != nil && !c.IsInvoke() {
+			if p, ok := c.Value.(*ssa.Parameter); ok && p.Parent() == fn {
+				res = true
+			}
+		}
+	})
+	e.conduit[fn] = res
+	return res
 }
 
 func (e *locksetEngine) applyGo(fn *ssa.Function, g *ssa.Go, st *flowState, collect bool, out *lockSummary) {
@@ -527,6 +553,15 @@ func (e *locksetEngine) calleesOf(ci ssa.CallInstruction) []*ssa.Function {
 		return out
 	}
 	for _, c := range e.w.Callees(ci) {
+		// a method value (`s.rem` handed to a generic helper) is called through a synthetic bound-method wrapper: what
+		// runs is the method
+		if c.Synthetic != "" && c.Object() != nil {
+			if tf, ok := c.Object().(*types.Func); ok {
+				if real := e.w.Prog.FuncValue(tf); real != nil {
+					c = real
+				}
+			}
+		}
 		if c.Blocks != nil && e.w.IsRulio(c) && !isTestFile(e.w, c) {
 			out = append(out, c)
 		}
@@ -1228,6 +1263,11 @@ func (e *locksetEngine) findings(scope func(fn *ssa.Function) bool) []lockFindin
 				if q.In == fname(fn) {
 					add(q, fname(fn), "outside-owner")
 				}
+				continue
+			}
+			// a conduit (a generic helper that calls the function it is handed) is shared by several owners: what its
+			// callback needs is reported at the callers that handed the callback in, not here
+			if o := outermost(fn); o.Signature.Recv() == nil && e.callsParam(o) {
 				continue
 			}
 			// inside the owner: report if callable from outside the owner without the lock
